@@ -27,14 +27,9 @@ HOW = {'eval': 'replay driver `eval` (FileBuilder::eval_string; payload = all to
 # programs in which a parameter of a named function is also the name of a top-level binding of the file (earlier or later, including
 # the function itself) that is not an integer -- all generated call arguments are integers, so an integer outer binding type-checks.
 # map / filter / reduce with an inline function, module locals and `item` are not affected and stay in the families.
+# (both repaired meanwhile: 7bf24ef parameters shadow outer bindings, 4cf3f2f parameter holes do not escape; the exclusions are gone
+# and the families exercise these programs again)
 KNOWN = [
-    dict(id='typecheck_param_typed_as_outer', input='let q = "s";\nlet f = func(q) => q + 1;\nlet r = f(1);',
-         observed='`ucg build`: "Type error: Expected str but got int" (FileBuilder::eval_string: r == 2): a parameter that is also an earlier top-level binding is typed as that binding',
-         clause='a function sees exactly the bindings that existed where it was defined plus its arguments (the argument hides the outer name inside the call)'),
-    dict(id='typecheck_param_leaks_into_file', input='let f = func(x, p) => x;\nlet p = {a = 1};\nlet c = f(0, 3);\nlet d = p.a;',
-         observed='`ucg build`: "Type error: Invalid field selector" (eval_string: d == 1); likewise `let p = func(p) => p; let c = p(0); let d = p(1);` -> "Not a callable type: int": '
-                  'after a call the parameter name keeps the argument type in the file scope of the type checker',
-         clause='neither its parameters nor a format string\'s `item` leak into the caller'),
 ]
 KNOWN_BUILD = 'typed_shadow'
 
@@ -320,7 +315,7 @@ def standin_prefix_values_build(tier, seed):
     """the same programs through the type checker + VM; values are pinned by `select (name == value) => {true = 1}` statements
     (no default: a different value is a build error) placed right after the binding AND at the end of the program"""
     rnd = random.Random(seed + 1000)
-    progs = programs(rnd, 400 if tier == 'thorough' else 60, 10, avoid_typed_shadow=True)
+    progs = programs(rnd, 400 if tier == 'thorough' else 60, 10, avoid_typed_shadow=False)
     cases = []
     for g in progs:
         lines, tail, n = [], [], 0
@@ -336,7 +331,7 @@ def standin_prefix_values_build(tier, seed):
             prev = aft
         cases.append('\n'.join(lines + tail))
     res = R.driver('buildfile', cases)
-    bound = '%d seeded programs as in prefix_values, each binding pinned to the reference value right after it is made and again at the end of the file [KNOWN_BUILD: no parameter named like a non-integer top-level binding]' % len(progs)
+    bound = '%d seeded programs as in prefix_values, each binding pinned to the reference value right after it is made and again at the end of the file' % len(progs)
     for src_, (st, out) in zip(cases, res):
         if st != 'OK':
             return dict(name='prefix_values_build', bound=bound, cases=len(cases), status='violation',
@@ -366,8 +361,12 @@ def scope_cases(names):
             cs.append(('let %s = 100;\n%slet f = func(%s) => %s + 1;\nlet res = f(1);\nlet after = %s;' % (n, G, n, n, n), {'res': '2', 'after': '100', n: '100'}))
             cs.append(('let f = func(%s) => %s + 1;\n%slet res = f(1);\nlet %s = 7;\nlet again = f(2);' % (n, n, G, n), {'res': '2', 'again': '3', n: '7'}))
             cs.append(('let f = func(%s) => %s + 1;\n%slet res = f(1);\nlet %s = "s";\nlet again = f(2);' % (n, n, G, n), {'res': '2', 'again': '3', n: '"s"'}))
-            for outer, shown in (('"s"', '"s"'), ('{k = 1}', '{k=1}'), ('func(w) => w', 'NULL'), ('[1]', '[1]')):
-                cs.append(('let %s = %s;\n%slet f = func(%s) => %s + 1;\nlet res = f(1);\nlet after = %s;' % (n, outer, G, n, n, n), {'res': '2', n: shown, KNOWN_BUILD: 1}))
+            for outer, shown in (('"s"', '"s"'), ('{k = 1}', '{k=1}'), ('func(w) => w', None), ('[1]', '[1]')):
+                exp = {'res': '2'}
+                if shown is not None:     # a function value has no literal to pin it to
+                    exp[n] = shown
+                    exp['after'] = shown
+                cs.append(('let %s = %s;\n%slet f = func(%s) => %s + 1;\nlet res = f(1);\nlet after = %s;' % (n, outer, G, n, n, n), exp))
             cs.append(('let f = func(%s) => %s + 1;\n%slet res = f(1);\nlet leak = %s;' % (n, n, G, n), None))
             cs.append(('let f = func(z, %s) => %s + z;\nlet res = f(1, 2);\n%slet leak = %s;' % (n, n, G, n), None))
             cs.append(('let l = map(func(%s) => %s + 1, [1, 2]);\n%slet leak = %s;' % (n, n, G, n), None))
@@ -430,8 +429,6 @@ def scope_cases(names):
 
 
 def check_scope(mode, cs, name, bound):
-    if mode == 'buildfile':
-        cs = [c for c in cs if not (c[1] and KNOWN_BUILD in c[1])]
     cs = [(p, None if e is None else dict((k, v) for k, v in e.items() if k != KNOWN_BUILD)) for p, e in cs]
     progs = []
     for p, exp in cs:
